@@ -370,17 +370,33 @@ def main(argv):
             write_evidence(ctx, level, problems)
             print("INFRA-ERROR: proof audit failed for %s" % prop)
             return 2
-        # 2. tie
+        # 2. tie (under a generous wall-clock limit: the harnesses finish in seconds to minutes on the unchanged tree; code that
+        # makes a worker spin for ever — a decode loop without progress, a retry without end — must end in a report, not in a hang)
+        import signal
+        limit = int(os.environ.get("VERIF_WALL_LIMIT", "0") or 0) or (1800 if a.tier == "quick" else 4 * 3600)
+        class HarnessStuck(Exception):
+            pass
+        def on_alarm(sig, frm):
+            raise HarnessStuck("the correspondence harness did not finish within %d s of wall time" % limit)
+        old_handler = signal.signal(signal.SIGALRM, on_alarm)
+        signal.alarm(limit)
         try:
             mod.run(ctx)
         except (InfraError, subprocess.TimeoutExpired):
             raise
+        except HarnessStuck as e:
+            print(str(e))
+            ctx.corr_break("harness-did-not-finish", "%s: on the unchanged tree it takes seconds to minutes, so some operation of the real code no longer terminates (or takes orders of magnitude longer)" % e,
+                           {"limit_s": limit, "where": traceback.format_exc()[-3000:]})
         except Exception:
             # the harness runs clean on the unchanged tree; a crash means the code no longer behaves
             # as the correspondence expects and no failing input was isolated
             tb = traceback.format_exc()
             print(tb)
             ctx.corr_break("harness-crash", "the correspondence harness crashed while driving the real code", {"traceback": tb})
+        finally:
+            signal.alarm(0)
+            signal.signal(signal.SIGALRM, old_handler)
         write_evidence(ctx, level, [])
         for key, what in ctx.known_hits:
             print("KNOWN-FINDING: property=%s %s" % (prop, what))
